@@ -9,6 +9,7 @@ import numpy as np
 from .values import *  # noqa: F401,F403
 
 ROOT = os.path.dirname(os.path.dirname(os.path.abspath(__file__)))
+OUT = os.environ.get("VERIF_OUT_DIR") or ROOT   # developer override (seed sweeps): where evidence / replays are written
 
 
 def load_known_findings():
@@ -270,7 +271,7 @@ def _replay_obligation(contract, agg_ob, pid):
 
 
 def write_replay(pid, agg_ob, rep):
-    d = os.path.join(ROOT, "replays", pid)
+    d = os.path.join(OUT, "replays", pid)
     os.makedirs(d, exist_ok=True)
     safe = "".join(ch if ch.isalnum() or ch in "._-" else "_" for ch in agg_ob["name"])[:150]
     path = os.path.join(d, safe + ".json")
@@ -320,7 +321,7 @@ def report_bounded_finding(out, pid, fid, text, detail):
     if known_open(pid, fid) is not None:
         out["known_lines"].append("KNOWN-FINDING: property=%s %s %s" % (pid, fid, text))
         return
-    d = os.path.join(ROOT, "replays", pid)
+    d = os.path.join(OUT, "replays", pid)
     os.makedirs(d, exist_ok=True)
     path = os.path.join(d, "bounded_%s.json" % fid)
     json.dump(dict(property=pid, obligation="bounded:%s" % fid, what=text, detail=detail), open(path, "w"), indent=1, default=str)
